@@ -272,6 +272,46 @@ func c19(c *core.Ctx) {
 		c.EndRule()
 	}
 
+	// ---------------------------------------------------------------- R5
+	if c.Rule("R5", "the import_path override is in place for every file before any stub is generated: no call that registers the override is reachable from a call of the per-file generator (a file generated earlier would otherwise fix an imported file's package from its own path first, and the stubs would import the wrong package)", 1) {
+		n := 0
+		for _, fn := range p.LibFuncs(genPkg) {
+			ovs := core.CallsIn(fn, func(_ *ssa.Call, ci core.CallInfo) bool { return ci.Name == "GoPackageForFileWithOverride" })
+			if len(ovs) == 0 {
+				continue
+			}
+			gens := core.CallsIn(fn, func(_ *ssa.Call, ci core.CallInfo) bool {
+				if ci.Static == nil || !core.PkgIs(ci.Static, genPkg) {
+					return false
+				}
+				for _, pp := range ci.Static.Params {
+					if strings.HasSuffix(core.TypeStr(pp.Type()), "plugins.GoNames") {
+						return true
+					}
+				}
+				return false
+			})
+			if len(gens) == 0 {
+				continue
+			}
+			n++
+			key := core.FuncName(fn) + ":override-before-generation"
+			bad := false
+			for _, g := range gens {
+				for _, o := range ovs {
+					if core.Reachable(core.After(g), o) {
+						bad = true
+					}
+				}
+			}
+			c.Check(!bad, key, ovs[0].Pos(), "every override registration precedes every generator call (none is reachable from one)", "an import_path override can be registered after a file has already been generated: with two files of one request where the earlier one imports the later one, the imported file's Go package is fixed from its own path first and the override is a no-op for it")
+		}
+		if n == 0 {
+			c.Fail(genPkg+":import-path-override", token.NoPos, "ANCHOR-MISSING: no function that both registers the import_path override and calls the per-file generator")
+		}
+		c.EndRule()
+	}
+
 	// ---------------------------------------------------------------- R4
 	if c.Rule("R4", "option parsing: the accepted option names are exactly {debug, legacy_stubs, legacy_desc_names, import_path, module, paths, M*}; each boolean option stores into its own field; index expressions are in range", 4) {
 		var pa *ssa.Function
